@@ -114,16 +114,72 @@ def const_block(src, name):
     return None if m is None else m.group(1)
 
 
+NUM = r"[0-9][0-9_]*(?:\.[0-9_]+)?(?:[eE][-+]?[0-9]+)?(?:_?(?:usize|u32|u64|f64|f32|isize|i32|i64))?"
+CEXPR = r"[-+*/() ]*" + NUM + r"(?:[-+*/() ]+" + NUM + r")*[) ]*"
+
+
+def const_expr(text, where):
+    """exact value (Fraction) of a constant expression made of numeric literals, + - * / and parentheses"""
+    toks = re.findall(NUM + r"|[-+*/()]", text.replace(" ", ""))
+    need("".join(toks) == text.replace(" ", ""), f"{where}: constant expression not understood: {text!r}")
+    pos = [0]
+
+    def lit(t):
+        t = re.sub(r"_?(usize|u32|u64|f64|f32|isize|i32|i64)$", "", t).replace("_", "")
+        return Fraction(t)
+
+    def atom():
+        need(pos[0] < len(toks), f"{where}: constant expression ends early: {text!r}")
+        t = toks[pos[0]]; pos[0] += 1
+        if t == "(":
+            v = expr()
+            need(pos[0] < len(toks) and toks[pos[0]] == ")", f"{where}: unbalanced parentheses in {text!r}")
+            pos[0] += 1
+            return v
+        if t == "-":
+            return -atom()
+        if t == "+":
+            return atom()
+        need(re.fullmatch(NUM, t), f"{where}: unexpected token {t!r} in {text!r}")
+        return lit(t)
+
+    def term():
+        v = atom()
+        while pos[0] < len(toks) and toks[pos[0]] in "*/":
+            op = toks[pos[0]]; pos[0] += 1
+            w = atom()
+            if op == "*":
+                v = v * w
+            else:
+                need(w != 0, f"{where}: division by zero in {text!r}")
+                v = v / w
+        return v
+
+    def expr():
+        v = term()
+        while pos[0] < len(toks) and toks[pos[0]] in "+-":
+            op = toks[pos[0]]; pos[0] += 1
+            w = term()
+            v = v + w if op == "+" else v - w
+        return v
+
+    v = expr()
+    need(pos[0] == len(toks), f"{where}: trailing tokens in constant expression {text!r}")
+    return v
+
+
 def decimal_const(src, name, where):
-    m = re.search(r"const\s+" + name + r"\s*:\s*f64\s*=\s*([0-9]+(?:\.[0-9]+)?)\s*;", src)
-    need(m, f"{where}: const {name}: f64 = <decimal> not found")
-    return Fraction(m.group(1))
+    m = re.search(r"const\s+" + name + r"\s*:\s*f64\s*=\s*(" + CEXPR + r")\s*;", src)
+    need(m, f"{where}: const {name}: f64 = <constant expression> not found")
+    return const_expr(m.group(1), f"{where} {name}")
 
 
 def usize_const(src, name, where, kw="const"):
-    m = re.search(kw + r"\s+" + name + r"\s*:\s*usize\s*=\s*([0-9_]+)\s*;", src)
+    m = re.search(kw + r"\s+" + name + r"\s*:\s*usize\s*=\s*(" + CEXPR + r")\s*;", src)
     need(m, f"{where}: {kw} {name}: usize not found")
-    return int(m.group(1).replace("_", ""))
+    v = const_expr(m.group(1), f"{where} {name}")
+    need(v.denominator == 1 and v >= 0 and "/" not in m.group(1), f"{where}: {name} is not a plain non-negative integer expression")
+    return int(v)
 
 
 CLASS = {"Any": "any", "Control": "control", "Whitespace": "whitespace", "Punctuation": "punctuation",
@@ -189,18 +245,22 @@ def parse_consts():
     info["dividerL"] = [unescape(x)[0] for x in re.findall(CHR, m.group(1))]
     info["dividerR"] = [unescape(x)[0] for x in re.findall(CHR, m.group(2))]
     ti = code("store/trigram_index.rs")
-    m = re.search(r"limit_sort_unstable\( ?\w+ ?\* ?([0-9]+) ?,", ti)
+    m = re.search(r"limit_sort_unstable\( ?\w+ ?\* ?(" + CEXPR + r") ?,", ti)
     need(m, "trigram_index.rs: candidate cap `limit_sort_unstable(size * N, …)` not found")
-    info["prepFactor"] = int(m.group(1))
+    v = const_expr(m.group(1), "trigram_index.rs candidate cap")
+    need(v.denominator == 1 and "/" not in m.group(1), "trigram_index.rs: candidate cap factor is not an integer expression")
+    info["prepFactor"] = int(v)
     ls = code("utils/limitsort.rs")
-    m = re.search(r"\w+\.len\(\) ?>= ?\w+ ?\* ?([0-9]+)", ls)
+    m = re.search(r"\w+\.len\(\) ?>= ?\w+ ?\* ?(" + CEXPR + r") ?\{", ls)
     need(m, "limitsort.rs: `buffer.len() >= limit * N` not found")
-    info["sortFactor"] = int(m.group(1))
+    v = const_expr(m.group(1), "limitsort.rs compaction factor")
+    need(v.denominator == 1 and "/" not in m.group(1), "limitsort.rs: compaction factor is not an integer expression")
+    info["sortFactor"] = int(v)
     nz = code("lang/normalize.rs")
     need(usize_const(nz, "NORM_MAX_PATTERN_LEN", "normalize.rs") == 2, "normalize.rs: NORM_MAX_PATTERN_LEN != 2 (model hard-wires a two-character window)")
-    cc = code("lang/char_class.rs")
+    cc = " ".join(code(os.path.join("lang", f)) for f in sorted(os.listdir(os.path.join(CORE, "lang"))) if f.endswith(".rs") and not f.startswith("lang_"))
     m = re.search(r"fn is_punctuation\( ?\w+ ?: ?char ?\) ?-> ?bool ?\{ ?(?:match \w+ ?\{(.*?)_ ?=> ?false|matches!\( ?\w+ ?,(.*?)\) ?\})", cc)
-    need(m, "char_class.rs: is_punctuation shape changed")
+    need(m, "lang/*.rs: fn is_punctuation(ch: char) -> bool { match … } not found")
     body = m.group(1) if m.group(1) is not None else m.group(2)
     info["punctuation"] = [unescape(x)[0] for x in re.findall(CHR, body)]
     entries_cover(body, CHR + r"|=> ?true|\|", "char_class.rs is_punctuation")
@@ -424,6 +484,20 @@ def main():
         for name, content in (("Consts.lean", emit_consts(info)), ("Langs.lean", emit_langs(langs)), ("Sites.lean", emit_sites(sites))):
             if write_if_changed(os.path.join(GEN, name), content):
                 changed.append(name)
+        # the same tables for the harness's generators (so that it does not parse the Rust text a second time)
+        lt = []
+        for code, t in langs:
+            acc = []
+            for k, _ in t["reduce"]:
+                for c in k:
+                    if c not in acc: acc.append(c)
+            for _, v in t["compose"]:
+                for c in v:
+                    if c not in acc: acc.append(c)
+            lt.append(f"{code} func " + ";".join(",".join(str(c) for c in w) for _, w in t["func"]))
+            lt.append(f"{code} accents " + ",".join(str(c) for c in acc))
+        with open(os.path.join(BUILD, "lang_tables.txt"), "w") as f:
+            f.write("\n".join(lt) + "\n")
         man = {"ok": True, "changed": changed, "soft_notes": NOTES, "consts": {k: v for k, v in info.items()},
                "langs": {code: {"compose": len(t["compose"]), "reduce": len(t["reduce"]), "func": len(t["func"]),
                                 "classes": len(t["classes"]), "stemmer": t["stemmer"]} for code, t in langs},
